@@ -25,8 +25,8 @@ def configs(tier, seed):
     aws = [0, 1, 5] if tier == "quick" else list(range(0, 9))
     for f in subsets:
         cfgs.append({"kind": "wb_sig", "feats": f, "pairs": pairs, "aws": aws})
-    cfgs.append({"kind": "csr_sig", "aws": list(range(1, 9)), "dws": [1, 8, 13, 32]})
-    cfgs.append({"kind": "element_sig", "widths": [0, 1, 8, 10, 33], "access": ["r", "w", "rw"]})
+    cfgs.append({"kind": "csr_sig", "aws": list(range(1, 9)) + [300, 1000], "dws": [1, 8, 13, 32, 257, 1024]})
+    cfgs.append({"kind": "element_sig", "widths": [0, 1, 8, 10, 33, 256, 257, 288, 4096], "access": ["r", "w", "rw"]})
     cfgs.append({"kind": "fieldport_sig"})
     cfgs.append({"kind": "source_sig"})
     cfgs.append({"kind": "pin_sig"})
@@ -46,6 +46,19 @@ def flat(sig):
         else:
             out.append((name, m.flow.name, "sig"))
     return sorted(out)
+
+
+def again(x):
+    """an equal parameter value held by a DIFFERENT object (equality of signatures is about values, not object identity)"""
+    if isinstance(x, bool) or x is None:
+        return x
+    if isinstance(x, int):
+        return int(str(x))
+    if isinstance(x, str):
+        return "".join(list(x)) if len(x) != 1 else (x + "_")[:1]
+    if isinstance(x, (tuple, list, frozenset, set)):
+        return type(x)(again(y) for y in x)
+    return x
 
 
 def check_config(ctx, cfg):
@@ -100,8 +113,10 @@ def check_config(ctx, cfg):
         for f in cfg["feats"][::3]:
             for (aw, dw, g) in ((1, 8, 8), (2, 8, 8), (1, 16, 8), (1, 16, 16)):
                 params.append((aw, dw, g, tuple(f)))
+        params += [(300, 64, 8, ()), (1000, 64, 16, ("err",))]
         sigs = [wishbone.Signature(addr_width=a, data_width=d, granularity=g, features=f) for a, d, g, f in params]
-        for (p, s), (q, t) in itertools.product(zip(params, sigs), repeat=2):
+        sigs2 = [wishbone.Signature(addr_width=again(a), data_width=again(d), granularity=again(g), features=again(f)) for a, d, g, f in params]
+        for (p, s), (q, t) in itertools.chain(itertools.product(zip(params, sigs), repeat=2), itertools.product(zip(params, sigs), zip(params, sigs2))):
             if (s == t) != (p == q):
                 bad["eq_exact"].append((p, q))
         if sigs[0] == csr.Signature(addr_width=1, data_width=8) or sigs[0] == 5:
@@ -116,7 +131,8 @@ def check_config(ctx, cfg):
             i = s.create()
             if not (isinstance(i, csr.Interface) and i.signature == s):
                 bad["create_roundtrip"].append((a, d))
-        for (p, s), (q, t) in itertools.product(zip(ps, sigs), repeat=2):
+        sigs2 = [csr.Signature(addr_width=again(a), data_width=again(d)) for a, d in ps]
+        for (p, s), (q, t) in itertools.chain(itertools.product(zip(ps, sigs), repeat=2), itertools.product(zip(ps, sigs), zip(ps, sigs2))):
             if (s == t) != (p == q):
                 bad["eq_exact"].append((p, q))
         for c in L3[:3]:
@@ -136,7 +152,8 @@ def check_config(ctx, cfg):
             i = s.create()
             if not (isinstance(i, csr.Element) and i.signature == s):
                 bad["create_roundtrip"].append((w, a))
-        for (p, s), (q, t) in itertools.product(zip(ps, sigs), repeat=2):
+        sigs2 = [csr.Element.Signature(again(w), again(a)) for w, a in ps]
+        for (p, s), (q, t) in itertools.chain(itertools.product(zip(ps, sigs), repeat=2), itertools.product(zip(ps, sigs), zip(ps, sigs2))):
             if (s == t) != (p == q):
                 bad["eq_exact"].append((p, q))
         for c in L3[:3]:
